@@ -188,9 +188,7 @@ func (vfs *BasePathFS) FromSlash(path string) string {
 // reached via multiple paths (due to symbolic links),
 // Getwd may return any one of them.
 func (vfs *BasePathFS) Getwd() (dir string, err error) {
-	dir, err = vfs.baseFS.Getwd()
-
-	return vfs.FromBasePath(dir), vfs.FromPathError(err)
+	return vfs.curDir(), nil
 }
 
 // Glob returns the names of all files matching pattern or nil
